@@ -64,6 +64,7 @@ type VerifOp struct {
 	Second   []VerifEnt    `json:"second,omitempty"`    // race: the second writer's batch (the first one's is Ents)
 	PauseAt  string        `json:"pause_at,omitempty"`  // race: hook point at which the first writer is held
 	FirstTxn bool          `json:"first_txn,omitempty"` // race: the first writer is a (single-dataset) transaction
+	Ld       bool          `json:"ld,omitempty"`        // hchanges / hentities: every request is repeated with Accept: application/ld+json and compared
 	Reject   bool          `json:"reject,omitempty"`    // batch: an entity with a nil reference is appended, StoreEntities must refuse the whole batch
 }
 
